@@ -415,8 +415,6 @@ static int String_Show(var self, var out, int pos) {
 
 static int String_Look(var self, var input, int pos) {
   
-  String_Clear(self);
-  
   var chr = $I(0);
   pos = scan_from(input, pos, "%c", chr);
   
@@ -424,6 +422,9 @@ static int String_Look(var self, var input, int pos) {
     throw(FormatError, 
       "String literal does not start with quotation marks!");
   }
+
+  /* only now: an unusable input (NULL, not a literal) leaves the string alone */
+  String_Clear(self);
   
   while (true) {
     
